@@ -85,6 +85,8 @@ map_arena(void)
                 z ^= z >> 31;
                 memcpy(pristine + i, &z, 8);
         }
+        memcpy(arena, pristine, ARENA_SIZE);
+        memcpy(shadow, pristine, ARENA_SIZE);
 }
 
 static int
@@ -159,11 +161,41 @@ job_from_view(IMB_JOB *job, const struct view *v)
         job->cipher_fields.CBCS.next_iv = (void *) f[23];
 }
 
+static int track_shadow = 0; /* mode b: keep `shadow` = what the arena must look like if nothing is written */
+static struct {
+        uint64_t addr;
+        size_t n;
+} pokes[8 + MAXSEGS];
+static int npokes;
+
 static void
 poke(uint64_t addr, const void *data, size_t n)
 {
         memcpy((void *) addr, data, n);
-        memcpy(shadow + (addr - ARENA_BASE), data, n);
+        if (track_shadow) {
+                memcpy(shadow + (addr - ARENA_BASE), data, n);
+                pokes[npokes].addr = addr;
+                pokes[npokes].n = n;
+                npokes++;
+        }
+}
+
+/* restore arena and shadow to the pristine image: cheap path undoes only the pokes of the last
+ * case when the arena is known to equal the shadow */
+static void
+reset_arena(int arena_equals_shadow)
+{
+        if (!arena_equals_shadow) {
+                memcpy(arena, pristine, ARENA_SIZE);
+                memcpy(shadow, pristine, ARENA_SIZE);
+        } else {
+                for (int i = 0; i < npokes; i++) {
+                        const size_t off = pokes[i].addr - ARENA_BASE;
+                        memcpy(arena + off, pristine + off, pokes[i].n);
+                        memcpy(shadow + off, pristine + off, pokes[i].n);
+                }
+        }
+        npokes = 0;
 }
 
 /* Materialise the memory view.  Returns 0 if every read the checker may perform through a pointer
@@ -176,8 +208,7 @@ apply_memory_view(const struct view *v)
         const uint32_t cm = (uint32_t) f[16];
         int unsafe = 0;
 
-        memcpy(arena, pristine, ARENA_SIZE);
-        memcpy(shadow, pristine, ARENA_SIZE);
+        npokes = 0;
         if (cm == IMB_CIPHER_DES3) {
                 if (f[0] != 0) {
                         if (in_arena(f[0], 24))
@@ -209,6 +240,11 @@ apply_memory_view(const struct view *v)
                 else
                         for (uint64_t i = 0; i < v->nsegs; i++)
                                 poke(f[3] + 24 * i, v->seg[i], 24);
+        }
+        if (track_shadow && (cm == IMB_CIPHER_GCM_SGL || cm == IMB_CIPHER_CHACHA20_POLY1305_SGL) && in_arena(f[15], 512)) {
+                /* a well-defined (zero) SGL context so that UPDATE/COMPLETE without INIT is harmless */
+                static const uint8_t zeros[512];
+                poke(f[15], zeros, sizeof(zeros));
         }
         return unsafe;
 }
@@ -267,6 +303,607 @@ run_a(const char *path, int light)
         return 0;
 }
 
+
+/* ------------------------------------------------------------------ managers */
+struct mgrdesc {
+        const char *name;
+        IMB_ARCH arch;
+        uint64_t flags;
+        IMB_MGR *mgr;
+};
+static struct mgrdesc mgrs[] = {
+        { "sse", IMB_ARCH_SSE, 0, NULL },
+        { "sse-noshani-nogfni", IMB_ARCH_SSE, IMB_FLAG_SHANI_OFF | IMB_FLAG_GFNI_OFF, NULL },
+        { "avx2", IMB_ARCH_AVX2, 0, NULL },
+        { "avx2-noshani-nogfni", IMB_ARCH_AVX2, IMB_FLAG_SHANI_OFF | IMB_FLAG_GFNI_OFF, NULL },
+        { "avx512", IMB_ARCH_AVX512, 0, NULL },
+        { "avx512-noshani-nogfni", IMB_ARCH_AVX512, IMB_FLAG_SHANI_OFF | IMB_FLAG_GFNI_OFF, NULL },
+};
+#define NMGRS ((int) (sizeof(mgrs) / sizeof(mgrs[0])))
+
+static IMB_MGR *
+make_mgr(const struct mgrdesc *d)
+{
+        IMB_MGR *m = alloc_mb_mgr(d->flags);
+        if (!m)
+                return NULL;
+        switch (d->arch) {
+        case IMB_ARCH_SSE:
+                init_mb_mgr_sse(m);
+                break;
+        case IMB_ARCH_AVX2:
+                init_mb_mgr_avx2(m);
+                break;
+        default:
+                init_mb_mgr_avx512(m);
+                break;
+        }
+        if (imb_get_errno(m) != 0) {
+                free_mb_mgr(m);
+                return NULL;
+        }
+        return m;
+}
+
+/* ------------------------------------------------------------------ neighbours */
+/* two fixed valid jobs (AES-128-CBC encrypt + HMAC-SHA1-96) living OUTSIDE the arena */
+struct nbr {
+        DECLARE_ALIGNED(uint32_t ek[15 * 4], 16);
+        DECLARE_ALIGNED(uint32_t dk[15 * 4], 16);
+        uint8_t iv[16], ipad[20], opad[20];
+        uint8_t src[256], dst[256], tag[16];
+        uint8_t ref_dst[256], ref_tag[16];
+        unsigned len;
+};
+static struct nbr NA, NB;
+
+static void
+nbr_init(IMB_MGR *m, struct nbr *n, unsigned len, uint8_t seed)
+{
+        uint8_t key[16];
+        for (int i = 0; i < 16; i++) {
+                key[i] = (uint8_t) (seed * 7 + i);
+                n->iv[i] = (uint8_t) (seed * 13 + 3 * i);
+        }
+        for (int i = 0; i < 20; i++) {
+                n->ipad[i] = (uint8_t) (seed + 31 * i);
+                n->opad[i] = (uint8_t) (seed * 3 + 17 * i);
+        }
+        for (unsigned i = 0; i < sizeof(n->src); i++)
+                n->src[i] = (uint8_t) (seed ^ (i * 5));
+        n->len = len;
+        IMB_AES_KEYEXP_128(m, key, n->ek, n->dk);
+}
+static void
+nbr_fill(IMB_JOB *j, struct nbr *n)
+{
+        memset(j, 0, sizeof(*j));
+        memset(n->dst, 0xA5, sizeof(n->dst));
+        memset(n->tag, 0x5A, sizeof(n->tag));
+        j->cipher_mode = IMB_CIPHER_CBC;
+        j->cipher_direction = IMB_DIR_ENCRYPT;
+        j->chain_order = IMB_ORDER_CIPHER_HASH;
+        j->hash_alg = IMB_AUTH_HMAC_SHA_1;
+        j->enc_keys = n->ek;
+        j->dec_keys = n->dk;
+        j->key_len_in_bytes = 16;
+        j->src = n->src;
+        j->dst = n->dst;
+        j->msg_len_to_cipher_in_bytes = n->len;
+        j->msg_len_to_hash_in_bytes = n->len;
+        j->iv = n->iv;
+        j->iv_len_in_bytes = 16;
+        j->auth_tag_output = n->tag;
+        j->auth_tag_output_len_in_bytes = 12;
+        j->u.HMAC._hashed_auth_key_xor_ipad = n->ipad;
+        j->u.HMAC._hashed_auth_key_xor_opad = n->opad;
+}
+static int
+nbr_ok(const IMB_JOB *j, const struct nbr *n)
+{
+        return j->status == IMB_STATUS_COMPLETED && memcmp(n->dst, n->ref_dst, sizeof(n->dst)) == 0 &&
+               memcmp(n->tag, n->ref_tag, sizeof(n->tag)) == 0;
+}
+static int
+nbr_reference(IMB_MGR *m, struct nbr *n)
+{
+        IMB_JOB *j = IMB_GET_NEXT_JOB(m);
+        nbr_fill(j, n);
+        IMB_JOB *r = IMB_SUBMIT_JOB(m);
+        if (!r)
+                r = IMB_FLUSH_JOB(m);
+        if (!r || r->status != IMB_STATUS_COMPLETED)
+                return -1;
+        memcpy(n->ref_dst, n->dst, sizeof(n->dst));
+        memcpy(n->ref_tag, n->tag, sizeof(n->tag));
+        while (IMB_FLUSH_JOB(m))
+                ;
+        return 0;
+}
+
+/* ------------------------------------------------------------------ fault containment */
+static sigjmp_buf fault_env;
+static volatile sig_atomic_t fault_armed, fault_sig;
+static void
+fault_handler(int sig)
+{
+        if (fault_armed) {
+                fault_sig = sig;
+                siglongjmp(fault_env, 1);
+        }
+        signal(sig, SIG_DFL);
+        raise(sig);
+}
+static void
+install_fault_handlers(void)
+{
+        struct sigaction sa;
+        static uint8_t altstack[1 << 16];
+        stack_t ss = { .ss_sp = altstack, .ss_size = sizeof(altstack), .ss_flags = 0 };
+        sigaltstack(&ss, NULL);
+        memset(&sa, 0, sizeof(sa));
+        sa.sa_handler = fault_handler;
+        sa.sa_flags = SA_NODEFER | SA_ONSTACK;
+        sigaction(SIGSEGV, &sa, NULL);
+        sigaction(SIGBUS, &sa, NULL);
+        sigaction(SIGILL, &sa, NULL);
+        sigaction(SIGFPE, &sa, NULL);
+        sigaction(SIGALRM, &sa, NULL);
+}
+
+/* descriptor comparison: everything but the status word (offset of `status`, 4 bytes) */
+static int
+desc_changed(const IMB_JOB *now, const IMB_JOB *before)
+{
+        IMB_JOB a = *now, b = *before;
+        a.status = b.status = 0;
+        return memcmp(&a, &b, sizeof(a)) != 0;
+}
+
+/* ------------------------------------------------------------------ mode b */
+/* One record per (case, manager, api):
+ *   R <case> <mgr> job   status=<s> errno=<e> ret=<k> desc=<0|1> arena=<0|1> nbr=<0|1> order=<0|1> fault=<sig|0>
+ *   R <case> <mgr> burst status=<s> errno=<e> ret=<n> desc=<0|1> arena=<0|1> nbr=<0|1> order=<0|1 = jobs[0] is not the invalid job> fault=<sig|0>
+ * desc  = descriptor bytes other than `status` changed between fill and hand-back
+ * arena = some byte of the caller buffers (the whole arena) differs from pristine+view
+ * nbr   = a neighbour valid job (one before, one after) did not complete with its reference output */
+static int
+run_case_job(IMB_MGR *m, const struct view *v, int *status, int *err, int *ret_desc, int *nbr_bad, int *order_bad)
+{
+        IMB_JOB *pa, *pv, *pb, *seq[8];
+        IMB_JOB snap;
+        int nseq = 0;
+        IMB_JOB *r;
+
+        pa = IMB_GET_NEXT_JOB(m);
+        nbr_fill(pa, &NA);
+        r = IMB_SUBMIT_JOB(m);
+        if (r)
+                seq[nseq++] = r;
+        pv = IMB_GET_NEXT_JOB(m);
+        job_from_view(pv, v);
+        snap = *pv;
+        r = IMB_SUBMIT_JOB(m);
+        *err = imb_get_errno(m);
+        if (r)
+                seq[nseq++] = r;
+        *status = pv->status; /* status right after submission */
+        pb = IMB_GET_NEXT_JOB(m);
+        nbr_fill(pb, &NB);
+        r = IMB_SUBMIT_JOB(m);
+        if (r)
+                seq[nseq++] = r;
+        while (nseq < 8 && (r = IMB_FLUSH_JOB(m)) != NULL)
+                seq[nseq++] = r;
+        *order_bad = !(nseq == 3 && seq[0] == pa && seq[1] == pv && seq[2] == pb);
+        *nbr_bad = !(nbr_ok(pa, &NA) && nbr_ok(pb, &NB));
+        if (*status != IMB_STATUS_INVALID_ARGS)
+                *status = pv->status; /* final status of an accepted job */
+        *ret_desc = desc_changed(pv, &snap);
+        return 0;
+}
+
+static int
+run_case_burst(IMB_MGR *m, const struct view *v, int *status, int *err, int *ret, int *ret_desc, int *nbr_bad,
+               int *first_not_invalid)
+{
+        IMB_JOB *jobs[IMB_MAX_BURST_SIZE];
+        IMB_JOB *pa, *pv, *pb, snap;
+        uint32_t n, got;
+
+        n = IMB_GET_NEXT_BURST(m, 3, jobs);
+        if (n != 3)
+                return -1;
+        pa = jobs[0];
+        pv = jobs[1];
+        pb = jobs[2];
+        nbr_fill(pa, &NA);
+        job_from_view(pv, v);
+        nbr_fill(pb, &NB);
+        imb_set_session(m, pa);
+        imb_set_session(m, pv); /* fails for jobs the light check rejects: suite id stays 0 */
+        imb_set_session(m, pb);
+        snap = *pv;
+        got = IMB_SUBMIT_BURST(m, 3, jobs);
+        *err = imb_get_errno(m);
+        *ret = (int) got;
+        *first_not_invalid = 0;
+        if (got == 0 && *err != 0 && jobs[0]->status == IMB_STATUS_INVALID_ARGS) {
+                /* rejected burst: nothing may have been processed.  (errno alone is not a reliable
+                 * sign of rejection: an ACCEPTED job can leave an error code behind, e.g. when the
+                 * SGL path forwards a NULL key to the direct API.) */
+                *first_not_invalid = (jobs[0] != pv);
+                *status = pv->status;
+                *ret_desc = desc_changed(pv, &snap);
+                int untouched = 1;
+                for (unsigned i = 0; i < sizeof(NA.dst); i++)
+                        if (NA.dst[i] != 0xA5 || NB.dst[i] != 0xA5)
+                                untouched = 0;
+                /* the two valid jobs on their own must still work */
+                n = IMB_GET_NEXT_BURST(m, 2, jobs);
+                if (n != 2)
+                        return -2;
+                pa = jobs[0];
+                pb = jobs[1];
+                nbr_fill(pa, &NA);
+                nbr_fill(pb, &NB);
+                imb_set_session(m, pa);
+                imb_set_session(m, pb);
+                got = IMB_SUBMIT_BURST(m, 2, jobs);
+                if (imb_get_errno(m) != 0)
+                        return -3;
+                while (got < 2) {
+                        uint32_t k = IMB_FLUSH_BURST(m, 2 - got, jobs);
+                        if (k == 0)
+                                break;
+                        got += k;
+                }
+                *nbr_bad = !(untouched && got == 2 && nbr_ok(pa, &NA) && nbr_ok(pb, &NB));
+                return 0;
+        }
+        while (got < 3) {
+                uint32_t k = IMB_FLUSH_BURST(m, 3 - got, jobs);
+                if (k == 0)
+                        break;
+                got += k;
+        }
+        *status = pv->status;
+        *ret_desc = desc_changed(pv, &snap);
+        *nbr_bad = !(got == 3 && nbr_ok(pa, &NA) && nbr_ok(pb, &NB));
+        return 0;
+}
+
+static int
+run_b(const char *path)
+{
+        FILE *fp = fopen(path, "r");
+        if (!fp) {
+                perror(path);
+                return 2;
+        }
+        track_shadow = 1;
+        install_fault_handlers();
+        /* reference outputs of the two neighbour jobs: computed on every manager, must agree */
+        {
+                uint8_t first[2][256 + 16];
+                int have = 0;
+                for (int i = 0; i < NMGRS; i++) {
+                        mgrs[i].mgr = make_mgr(&mgrs[i]);
+                        if (!mgrs[i].mgr) {
+                                printf("M %s unavailable\n", mgrs[i].name);
+                                continue;
+                        }
+                        if (nbr_reference(mgrs[i].mgr, &NA) || nbr_reference(mgrs[i].mgr, &NB)) {
+                                printf("M %s reference-failed\n", mgrs[i].name);
+                                mgrs[i].mgr = NULL;
+                                continue;
+                        }
+                        uint8_t cur[2][256 + 16];
+                        memcpy(cur[0], NA.ref_dst, 256);
+                        memcpy(cur[0] + 256, NA.ref_tag, 16);
+                        memcpy(cur[1], NB.ref_dst, 256);
+                        memcpy(cur[1] + 256, NB.ref_tag, 16);
+                        if (!have) {
+                                memcpy(first, cur, sizeof(first));
+                                have = 1;
+                        }
+                        printf("M %s %s\n", mgrs[i].name, memcmp(first, cur, sizeof(first)) == 0 ? "ok" : "reference-differs");
+                }
+        }
+        static char line[16384];
+        struct view v;
+        long caseno = -1;
+        int clean = 0;
+        while (fgets(line, sizeof(line), fp)) {
+                if (line[0] == '#' || line[0] == '\n')
+                        continue;
+                caseno++;
+                if (parse_line(line, &v)) {
+                        printf("R %ld - parse-error\n", caseno);
+                        continue;
+                }
+                for (int mi = 0; mi < NMGRS; mi++) {
+                        for (int api = 0; api < 2; api++) {
+                                IMB_MGR *m = mgrs[mi].mgr;
+                                if (!m)
+                                        continue;
+                                reset_arena(clean);
+                                clean = 0;
+                                if (apply_memory_view(&v)) {
+                                        printf("R %ld %s %s skip-unsafe-view\n", caseno, mgrs[mi].name, api ? "burst" : "job");
+                                        reset_arena(0);
+                                        continue;
+                                }
+                                int status = -1, err = -1, ret = -1, dchg = 0, nbr_bad = 0, ord = 0, rc = 0;
+                                fault_sig = 0;
+                                if (sigsetjmp(fault_env, 1) == 0) {
+                                        fault_armed = 1;
+                                        alarm(20);
+                                        if (api == 0)
+                                                rc = run_case_job(m, &v, &status, &err, &dchg, &nbr_bad, &ord);
+                                        else
+                                                rc = run_case_burst(m, &v, &status, &err, &ret, &dchg, &nbr_bad, &ord);
+                                        alarm(0);
+                                        fault_armed = 0;
+                                } else {
+                                        /* the library faulted while handling this case: manager state is lost */
+                                        alarm(0);
+                                        fault_armed = 0;
+                                        mgrs[mi].mgr = make_mgr(&mgrs[mi]); /* old one is leaked on purpose */
+                                        m = mgrs[mi].mgr;
+                                        if (m) {
+                                                nbr_init(m, &NA, 64, 1);
+                                                nbr_init(m, &NB, 128, 2);
+                                        }
+                                }
+                                /* leave nothing behind for the next case */
+                                if (m && !fault_sig) {
+                                        int guard = 0;
+                                        while (IMB_FLUSH_JOB(m) != NULL && guard++ < 512)
+                                                ;
+                                        if (IMB_QUEUE_SIZE(m) != 0) {
+                                                mgrs[mi].mgr = make_mgr(&mgrs[mi]);
+                                                rc = rc ? rc : -8;
+                                        }
+                                }
+                                const int achg = memcmp(arena, shadow, ARENA_SIZE) != 0;
+                                clean = !achg;
+                                printf("R %ld %s %s status=%d errno=%d ret=%d desc=%d arena=%d nbr=%d order=%d fault=%d rc=%d\n",
+                                       caseno, mgrs[mi].name, api ? "burst" : "job", status, err, ret, dchg, achg, nbr_bad, ord,
+                                       (int) fault_sig, rc);
+                        }
+                }
+        }
+        fclose(fp);
+        return 0;
+}
+
+/* ------------------------------------------------------------------ mode m: misuse of the burst calls */
+static void
+m_line(const char *mgr, const char *what, int ok, int ret, int err, int exp_err, const char *extra)
+{
+        printf("U %s %-28s ret=%d errno=%d expected=%d %s %s\n", mgr, what, ret, err, exp_err, extra, ok ? "OK" : "FAIL");
+}
+
+/* after every misuse a well-formed burst of the two neighbours must still give reference output */
+static int
+good_burst(IMB_MGR *m)
+{
+        IMB_JOB *jobs[4];
+        uint32_t n = IMB_GET_NEXT_BURST(m, 2, jobs), got;
+        if (n != 2)
+                return 0;
+        IMB_JOB *pa = jobs[0], *pb = jobs[1];
+        nbr_fill(pa, &NA);
+        nbr_fill(pb, &NB);
+        imb_set_session(m, pa);
+        imb_set_session(m, pb);
+        got = IMB_SUBMIT_BURST(m, 2, jobs);
+        if (imb_get_errno(m) != 0)
+                return 0;
+        while (got < 2) {
+                uint32_t k = IMB_FLUSH_BURST(m, 2 - got, jobs);
+                if (!k)
+                        break;
+                got += k;
+        }
+        return got == 2 && nbr_ok(pa, &NA) && nbr_ok(pb, &NB);
+}
+
+static void
+run_m_one(const struct mgrdesc *d, IMB_MGR *m)
+{
+        IMB_JOB *jobs[IMB_MAX_BURST_SIZE + 2];
+        uint32_t n;
+        int e, ok;
+
+        nbr_init(m, &NA, 64, 1);
+        nbr_init(m, &NB, 128, 2);
+        if (nbr_reference(m, &NA) || nbr_reference(m, &NB)) {
+                printf("U %s reference-failed FAIL\n", d->name);
+                return;
+        }
+        /* 1. NULL array */
+        n = IMB_SUBMIT_BURST(m, 1, NULL);
+        e = imb_get_errno(m);
+        ok = (n == 0 && e == IMB_ERR_NULL_BURST) && good_burst(m);
+        m_line(d->name, "submit_burst(jobs=NULL)", ok, (int) n, e, IMB_ERR_NULL_BURST, "");
+        n = IMB_GET_NEXT_BURST(m, 1, NULL);
+        e = imb_get_errno(m);
+        ok = (n == 0 && e == IMB_ERR_NULL_BURST) && good_burst(m);
+        m_line(d->name, "get_next_burst(jobs=NULL)", ok, (int) n, e, IMB_ERR_NULL_BURST, "");
+        n = IMB_FLUSH_BURST(m, 1, NULL);
+        e = imb_get_errno(m);
+        ok = (n == 0 && e == IMB_ERR_NULL_BURST) && good_burst(m);
+        m_line(d->name, "flush_burst(jobs=NULL)", ok, (int) n, e, IMB_ERR_NULL_BURST, "");
+        /* 2. oversize */
+        IMB_GET_NEXT_BURST(m, 2, jobs);
+        n = IMB_SUBMIT_BURST(m, IMB_MAX_BURST_SIZE + 1, jobs);
+        e = imb_get_errno(m);
+        ok = (n == 0 && e == IMB_ERR_BURST_SIZE) && good_burst(m);
+        m_line(d->name, "submit_burst(n=MAX+1)", ok, (int) n, e, IMB_ERR_BURST_SIZE, "");
+        n = IMB_GET_NEXT_BURST(m, IMB_MAX_BURST_SIZE + 1, jobs);
+        e = imb_get_errno(m);
+        ok = (n == 0 && e == IMB_ERR_BURST_SIZE) && good_burst(m);
+        m_line(d->name, "get_next_burst(n=MAX+1)", ok, (int) n, e, IMB_ERR_BURST_SIZE, "");
+        /* 3. NULL job pointer inside the array */
+        IMB_GET_NEXT_BURST(m, 2, jobs);
+        nbr_fill(jobs[0], &NA);
+        imb_set_session(m, jobs[0]);
+        jobs[1] = NULL;
+        n = IMB_SUBMIT_BURST(m, 2, jobs);
+        e = imb_get_errno(m);
+        ok = (n == 0 && e == IMB_ERR_NULL_JOB && NA.dst[0] == 0xA5 && NA.dst[63] == 0xA5) && good_burst(m);
+        m_line(d->name, "submit_burst(jobs[1]=NULL)", ok, (int) n, e, IMB_ERR_NULL_JOB, "first-job-untouched");
+        /* 4. jobs out of order */
+        IMB_GET_NEXT_BURST(m, 2, jobs);
+        {
+                IMB_JOB *t = jobs[0];
+                jobs[0] = jobs[1];
+                jobs[1] = t;
+                nbr_fill(jobs[0], &NA);
+                nbr_fill(jobs[1], &NB);
+                imb_set_session(m, jobs[0]);
+                imb_set_session(m, jobs[1]);
+                IMB_JOB *bad = jobs[0];
+                n = IMB_SUBMIT_BURST(m, 2, jobs);
+                e = imb_get_errno(m);
+                ok = (n == 0 && e == IMB_ERR_BURST_OOO && jobs[0] == bad && bad->status == IMB_STATUS_INVALID_ARGS &&
+                      NA.dst[0] == 0xA5 && NB.dst[0] == 0xA5) &&
+                     good_burst(m);
+                m_line(d->name, "submit_burst(out of order)", ok, (int) n, e, IMB_ERR_BURST_OOO, "nothing-processed");
+        }
+        /* 5. valid job whose suite id was not set (imb_set_session not called) */
+        IMB_GET_NEXT_BURST(m, 1, jobs);
+        nbr_fill(jobs[0], &NA);
+        {
+                IMB_JOB *bad = jobs[0];
+                n = IMB_SUBMIT_BURST(m, 1, jobs);
+                e = imb_get_errno(m);
+                ok = (n == 0 && e == IMB_ERR_BURST_SUITE_ID && bad->status == IMB_STATUS_INVALID_ARGS && NA.dst[0] == 0xA5) &&
+                     good_burst(m);
+                m_line(d->name, "submit_burst(no set_session)", ok, (int) n, e, IMB_ERR_BURST_SUITE_ID, "nothing-processed");
+        }
+        /* 6. not enough space in the queue: one job that stays in flight (a single HMAC lane does not
+         *    complete on its own) followed by NULL/NULL jobs that complete but cannot be returned
+         *    before it; then a burst larger than the remaining space */
+        {
+                IMB_JOB *j = IMB_GET_NEXT_JOB(m);
+                int queued = 0, returned = 0;
+                nbr_fill(j, &NA);
+                j->cipher_mode = IMB_CIPHER_NULL;
+                if (IMB_SUBMIT_JOB(m))
+                        returned++;
+                queued++;
+                for (int i = 0; i < 200; i++) {
+                        j = IMB_GET_NEXT_JOB(m);
+                        memset(j, 0, sizeof(*j));
+                        j->cipher_mode = IMB_CIPHER_NULL;
+                        j->hash_alg = IMB_AUTH_NULL;
+                        j->cipher_direction = IMB_DIR_ENCRYPT;
+                        j->chain_order = IMB_ORDER_CIPHER_HASH;
+                        if (IMB_SUBMIT_JOB(m))
+                                returned++;
+                        queued++;
+                }
+                const uint32_t qs = IMB_QUEUE_SIZE(m);
+                n = IMB_GET_NEXT_BURST(m, 128, jobs);
+                const uint32_t avail = n;
+                uint32_t r2 = IMB_SUBMIT_BURST(m, 128, jobs);
+                e = imb_get_errno(m);
+                char extra[96];
+                snprintf(extra, sizeof(extra), "queue=%u offered=%u returned-early=%d", qs, avail, returned);
+                int flushed = 0;
+                while (IMB_FLUSH_JOB(m))
+                        flushed++;
+                ok = (qs > 128 && avail < 128 && r2 == 0 && e == IMB_ERR_QUEUE_SPACE && flushed == (int) qs) && good_burst(m);
+                m_line(d->name, "submit_burst(n>space)", ok, (int) r2, e, IMB_ERR_QUEUE_SPACE, extra);
+        }
+        /* 7. synchronous cipher burst with an invalid job in the middle / NULL array / bad cipher */
+        {
+                static IMB_JOB cj[3];
+                static uint8_t d0[64], d1[64], d2[64];
+                uint8_t *dd[3] = { d0, d1, d2 };
+                for (int i = 0; i < 3; i++) {
+                        nbr_fill(&cj[i], &NA);
+                        cj[i].hash_alg = IMB_AUTH_NULL;
+                        memset(dd[i], 0xA5, 64);
+                        cj[i].dst = dd[i];
+                }
+                cj[1].src = NULL;
+                n = IMB_SUBMIT_CIPHER_BURST(m, cj, 3, IMB_CIPHER_CBC, IMB_DIR_ENCRYPT, IMB_KEY_128_BYTES);
+                e = imb_get_errno(m);
+                int untouched = 1;
+                for (int i = 0; i < 3; i++)
+                        for (int k = 0; k < 64; k++)
+                                if (dd[i][k] != 0xA5)
+                                        untouched = 0;
+                ok = (n == 0 && e == IMB_ERR_JOB_NULL_SRC && cj[1].status == IMB_STATUS_INVALID_ARGS && untouched);
+                cj[1].src = NA.src;
+                n = IMB_SUBMIT_CIPHER_BURST(m, cj, 3, IMB_CIPHER_CBC, IMB_DIR_ENCRYPT, IMB_KEY_128_BYTES);
+                ok = ok && n == 3 && imb_get_errno(m) == 0 && memcmp(d0, NA.ref_dst, 64) == 0 && memcmp(d2, NA.ref_dst, 64) == 0;
+                m_line(d->name, "cipher_burst(job[1].src=NULL)", ok, (int) n, e, IMB_ERR_JOB_NULL_SRC, "none-processed-then-ok");
+                n = IMB_SUBMIT_CIPHER_BURST(m, NULL, 3, IMB_CIPHER_CBC, IMB_DIR_ENCRYPT, IMB_KEY_128_BYTES);
+                e = imb_get_errno(m);
+                m_line(d->name, "cipher_burst(jobs=NULL)", n == 0 && e == IMB_ERR_NULL_BURST, (int) n, e, IMB_ERR_NULL_BURST, "");
+                n = IMB_SUBMIT_CIPHER_BURST(m, cj, 3, IMB_CIPHER_DES, IMB_DIR_ENCRYPT, IMB_KEY_128_BYTES);
+                e = imb_get_errno(m);
+                m_line(d->name, "cipher_burst(cipher=DES)", n == 0 && e == IMB_ERR_CIPH_MODE, (int) n, e, IMB_ERR_CIPH_MODE, "");
+        }
+        /* 8. synchronous hash burst with an invalid job / unsupported hash */
+        {
+                static IMB_JOB hj[3];
+                static uint8_t t0[16], t1[16], t2[16];
+                uint8_t *tt[3] = { t0, t1, t2 };
+                for (int i = 0; i < 3; i++) {
+                        nbr_fill(&hj[i], &NA);
+                        hj[i].cipher_mode = IMB_CIPHER_NULL;
+                        memset(tt[i], 0x5A, 16);
+                        hj[i].auth_tag_output = tt[i];
+                }
+                hj[1].auth_tag_output_len_in_bytes = 13;
+                n = IMB_SUBMIT_HASH_BURST(m, hj, 3, IMB_AUTH_HMAC_SHA_1);
+                e = imb_get_errno(m);
+                int untouched = 1;
+                for (int i = 0; i < 3; i++)
+                        for (int k = 0; k < 16; k++)
+                                if (tt[i][k] != 0x5A)
+                                        untouched = 0;
+                ok = (n == 0 && e == IMB_ERR_JOB_AUTH_TAG_LEN && hj[1].status == IMB_STATUS_INVALID_ARGS && untouched);
+                m_line(d->name, "hash_burst(job[1].tag_len=13)", ok, (int) n, e, IMB_ERR_JOB_AUTH_TAG_LEN, "none-processed");
+                n = IMB_SUBMIT_HASH_BURST(m, hj, 3, IMB_AUTH_AES_XCBC);
+                e = imb_get_errno(m);
+                m_line(d->name, "hash_burst(hash=XCBC)", n == 0 && e == IMB_ERR_HASH_ALGO, (int) n, e, IMB_ERR_HASH_ALGO, "");
+        }
+}
+
+static int
+run_m(void)
+{
+        install_fault_handlers();
+        for (int i = 0; i < NMGRS; i++) {
+                IMB_MGR *m = make_mgr(&mgrs[i]);
+                if (!m) {
+                        printf("M %s unavailable\n", mgrs[i].name);
+                        continue;
+                }
+                fault_sig = 0;
+                if (sigsetjmp(fault_env, 1) == 0) {
+                        fault_armed = 1;
+                        alarm(30);
+                        run_m_one(&mgrs[i], m);
+                        alarm(0);
+                        fault_armed = 0;
+                } else {
+                        fault_armed = 0;
+                        printf("U %s fault signal=%d FAIL\n", mgrs[i].name, (int) fault_sig);
+                }
+        }
+        return 0;
+}
+
+/*@@DIRECT_TABLE@@*/
+
 int
 main(int argc, char **argv)
 {
@@ -278,6 +915,16 @@ main(int argc, char **argv)
         map_arena();
         if ((argv[1][0] == 'a' || argv[1][0] == 'l') && argc >= 3)
                 return run_a(argv[2], argv[1][0] == 'l');
+        if (argv[1][0] == 'b' && argc >= 3) {
+                /* neighbours are initialised per manager inside nbr_reference users */
+                IMB_MGR *m0 = alloc_mb_mgr(0);
+                init_mb_mgr_sse(m0);
+                nbr_init(m0, &NA, 64, 1);
+                nbr_init(m0, &NB, 128, 2);
+                return run_b(argv[2]);
+        }
+        if (argv[1][0] == 'm')
+                return run_m();
         fprintf(stderr, "unknown mode\n");
         return 2;
 }
